@@ -336,6 +336,9 @@ class WhileToFor:
 
 
 # ------------------------------------------------------------------------------------------- D5 / D6 / D7 / D8 expression level
+_SEEK = {"SEEK_SET": 0, "SEEK_CUR": 1, "SEEK_END": 2}
+
+
 class Desugar(ast.NodeTransformer):
     def __init__(self):
         self.cls = []
@@ -367,6 +370,9 @@ class Desugar(ast.NodeTransformer):
 
     def visit_Attribute(self, node):
         self.generic_visit(node)
+        # io.SEEK_SET / os.SEEK_CUR / ... -> 0 / 1 / 2   (the values the standard library documents for them)
+        if node.attr in _SEEK and isinstance(node.value, ast.Name) and node.value.id in ("io", "os") and isinstance(node.ctx, ast.Load):
+            return ast.copy_location(ast.Constant(value=_SEEK[node.attr]), node)
         # struct.Struct("<i").size -> 4
         if node.attr == "size" and isinstance(node.value, ast.Call) and ast.unparse(node.value.func) in ("struct.Struct", "Struct") and len(node.value.args) == 1 \
                 and isinstance(node.value.args[0], ast.Constant) and isinstance(node.value.args[0].value, str):
@@ -1185,7 +1191,31 @@ class DispatchSplit:
 
 
 # ------------------------------------------------------------------------------------------- driver
+def seek_names(tree):
+    """`from io import SEEK_SET` / `from os import SEEK_CUR as CUR`: the imported names are the documented integers"""
+    env = {}
+    for st in tree.body:
+        if isinstance(st, ast.ImportFrom) and st.module in ("io", "os") and st.level == 0:
+            for a in st.names:
+                if a.name in _SEEK:
+                    env[a.asname or a.name] = _SEEK[a.name]
+    if not env:
+        return 0
+    stored = {n.id for n in ast.walk(tree) if isinstance(n, ast.Name) and isinstance(n.ctx, ast.Store)}
+    env = {k: v for k, v in env.items() if k not in stored}
+
+    class R(ast.NodeTransformer):
+        def visit_Name(self, n):
+            if n.id in env and isinstance(n.ctx, ast.Load):
+                return ast.copy_location(ast.Constant(value=env[n.id]), n)
+            return n
+
+    R().visit(tree)
+    return len(env)
+
+
 def desugar_module(tree: ast.Module):
+    seek_names(tree)
     MatchToIf().visit(tree)
     ast.fix_missing_locations(tree)
     inline_contextmanagers(tree)
